@@ -236,7 +236,8 @@ void run(size_t idx) {
 
 MonReg reg({"C01", "exploration",
 			"inputs: the 52 real sample files, float-mutated variants of them (layout preserved), typed synthesis of a populated instance of each of the 304 registered block types in each "
-			"of 14 versions inside a planned file (root, holder chain to the focus, type-compatible companions; 2 seeds quick / 16 thorough), models built through the public API, and edited models (random API edit sequences incl. detached sub-graphs on real/API/synthesised models; synthesised files with reversed block order). "
+			"of 14 versions (plus 22 further Fallout 3 range streams around every stream value the Sync code compares against) inside a planned file (root, holder chain to the focus, type-compatible companions; 2 seeds quick / 16 thorough), models built through the public API, and edited models (random API edit sequences incl. detached sub-graphs on real/API/synthesised models; synthesised files with reversed block order). "
+			"Every third input also passes through a NifFile object that has held another model (loaded sample, sample with an unknown block type, created model) and must be written to the same bytes as by a fresh object. "
 			"Oracle per accepted input F: N=rawsave(load(F)) loads and rawsave(load(N))==N byte for byte (diffed block by block); default save: D2==D3. Non-trivial = synthesised focus "
 			"block whose payload in N differs from a default-constructed block, or a multi-block real/API file; distinct by (version,type,payload hash).",
 			[] { return layout().total(); }, run, 60, 120.0, false, false, nullptr});
